@@ -351,7 +351,7 @@ Section Stages.
   Qed.
 
   Lemma unmarshal_rendered : forall A empty parse b a, unmarshal A empty parse b (Rendered a) = DObj a.
-  Proof. reflexivity. Qed.
+  Proof. intros A empty parse b a. destruct b; reflexivity. Qed.
 
   Lemma flow_stage_rendered_ok : forall l seen acc,
     forallb flow_struct_ok l = true ->
@@ -404,5 +404,106 @@ Section Stages.
       + unfold load, load_with, load_gen, struct_ok. cbn [cf_flows]. rewrite Hok, Hnd. reflexivity.
     - rewrite (flow_stage_rendered_bad _ Hok).
       unfold load, load_with, load_gen, struct_ok. cbn [cf_flows]. rewrite Hok. reflexivity.
+  Qed.
+
+  (* ---- the gateway's start-up mode (Decode.v, Section Startup; audit 2 item 8) *)
+
+  Notation fstart := (flow_stage_startup parse_f true).
+  Notation loads := (load_files_startup parse_q parse_p parse_f parse_d).
+
+  Lemma flow_stage_startup_alloc : forall fs seen bad acc,
+    (exists l, fstart fs seen bad acc = FSFlows l) \/ fstart fs seen bad acc = FSOut (OReject 1).
+  Proof.
+    induction fs as [|f r IH]; intros seen bad acc; cbn [flow_stage_startup].
+    - destruct (bad && none_read acc); eauto.
+    - destruct (unmarshal flowcfg empty_flow parse_f true f) eqn:E.
+      + exfalso. eapply unmarshal_alloc_not_nil; eauto.
+      + apply IH.
+      + destruct (negb (flow_struct_ok a)); [apply IH|].
+        destruct (memZ (fc_name a) seen); [auto|apply IH].
+  Qed.
+
+  Lemma load_files_startup_never_panics : forall d s, loads d <> OPanic s.
+  Proof.
+    intros d s. unfold load_files_startup, load_dir_startup.
+    destruct (quota_stage_alloc (d_quotas d)) as [-> | ->]; [|congruence].
+    rewrite pparam_stage_none.
+    destruct (flow_stage_startup_alloc (d_flows d) [] false []) as [[l ->] | ->]; [|congruence].
+    destruct (procdef_stage_alloc (d_procdefs d)) as [-> | ->]; [|congruence].
+    apply of_verdict_not_panic.
+  Qed.
+
+  Lemma load_files_startup_no_fuel : forall d, loads d <> OFuel.
+  Proof.
+    intros d. unfold load_files_startup, load_dir_startup.
+    destruct (quota_stage_alloc (d_quotas d)) as [-> | ->]; [|congruence].
+    rewrite pparam_stage_none.
+    destruct (flow_stage_startup_alloc (d_flows d) [] false []) as [[l ->] | ->]; [|congruence].
+    destruct (procdef_stage_alloc (d_procdefs d)) as [-> | ->]; [|congruence].
+    pose proof (load_no_fuel (CF l (quota_defined (d_quotas d))) true) as H.
+    unfold load. destruct (load_with true true (CF l (quota_defined (d_quotas d)))); cbn; congruence.
+  Qed.
+
+  (* where the validation-mode stage hands flows on, the start-up stage hands on the same *)
+  Lemma flow_stage_startup_same : forall fs seen bad acc l,
+    fstage_ fs seen bad acc = FSFlows l -> fstart fs seen bad acc = FSFlows l.
+  Proof.
+    induction fs as [|f r IH]; intros seen bad acc l; cbn [flow_stage flow_stage_startup].
+    - destruct bad; [intros E; discriminate E|]. cbn [andb]. auto.
+    - destruct (unmarshal flowcfg empty_flow parse_f true f) eqn:E.
+      + auto.
+      + apply IH.
+      + destruct (negb (flow_struct_ok a)); [apply IH|].
+        destruct (memZ (fc_name a) seen); [intros E0; discriminate E0|apply IH].
+  Qed.
+
+  (* the two modes differ only where validation rejects at the flow-file stage *)
+  Lemma startup_differs_only_on_flow_file_rejections : forall d,
+    loadf d = OReject 1 \/ loads d = loadf d.
+  Proof.
+    intros d. unfold load_files, load_dir, load_files_startup, load_dir_startup.
+    destruct (quota_stage_alloc (d_quotas d)) as [-> | ->]; [|right; reflexivity].
+    rewrite pparam_stage_none.
+    destruct (flow_stage_alloc (d_flows d) [] false []) as [[l El] | ->]; [|left; reflexivity].
+    rewrite El, (flow_stage_startup_same _ _ _ _ _ El). right. reflexivity.
+  Qed.
+
+  Lemma flow_stage_startup_flows : forall all fs seen bad acc l,
+    (forall f, In f fs -> In f all) ->
+    (forall fc, In fc acc -> from_file all fc) ->
+    fstart fs seen bad acc = FSFlows l ->
+    forall fc, In fc l -> from_file all fc.
+  Proof.
+    intros all. induction fs as [|f r IH]; intros seen bad acc l Hsub Hacc; cbn [flow_stage_startup].
+    - destruct (bad && none_read acc); [intros E; discriminate E|]. intros E fc Hin. inversion E; subst l.
+      apply Hacc. apply in_rev. exact Hin.
+    - destruct (unmarshal flowcfg empty_flow parse_f true f) eqn:E.
+      + intros E0; discriminate E0.
+      + apply IH; auto. intros g Hg. apply Hsub. right. exact Hg.
+      + destruct (flow_struct_ok a) eqn:Ok; cbn [negb].
+        * destruct (memZ (fc_name a) seen); [intros E0; discriminate E0|].
+          apply IH; [intros g Hg; apply Hsub; right; exact Hg|].
+          intros fc [<- | Hin]; [|apply Hacc; exact Hin].
+          exists f. split; [apply Hsub; left; reflexivity|].
+          destruct (unmarshal_obj_doc _ _ _ _ _ E) as [D | [_ Ee]]; [exact D|].
+          subst a. rewrite empty_flow_not_ok in Ok. discriminate.
+        * apply IH; auto. intros g Hg. apply Hsub. right. exact Hg.
+  Qed.
+
+  Lemma startup_accept_is_load : forall d fl,
+    loads d = OAccept fl ->
+    exists l, load (CF l (quota_defined (d_quotas d))) = Accept fl
+              /\ forall fc, In fc l -> from_file (d_flows d) fc.
+  Proof.
+    intros d fl. unfold load_files_startup, load_dir_startup.
+    destruct (quota_stage_alloc (d_quotas d)) as [-> | ->]; [|intros E0; discriminate E0].
+    rewrite pparam_stage_none.
+    destruct (flow_stage_startup parse_f true (d_flows d) [] false []) as [o|l] eqn:F.
+    { destruct (flow_stage_startup_alloc (d_flows d) [] false []) as [[l' El] | El]; rewrite El in F;
+        [discriminate F|inversion F; subst o; intros E0; discriminate E0]. }
+    destruct (procdef_stage_alloc (d_procdefs d)) as [-> | ->]; [|intros E0; discriminate E0].
+    intros E. exists l. split.
+    - destruct (load (CF l (quota_defined (d_quotas d)))); cbn in E; congruence.
+    - eapply flow_stage_startup_flows; [| |exact F]; [auto|intros fc []].
   Qed.
 End Stages.
